@@ -28,6 +28,13 @@ def make_factory(case, created, multi=False):
             import BPTK_Py.sddsl.functions as sd
             g = m.converter("g"); g.equation = c * a
             c.equation = c0; f.equation = sd.delay(m, g, 2 * dt); s.initial_value = s0; s.equation = f; k.equation = s * b + c
+        elif case.get("family") == "direct":
+            # wave 4: the STOCK's equation names the constant directly, so the stock reads c(t-dt): the constant's own history matters
+            c.equation = c0; f.equation = c * a; s.initial_value = s0; s.equation = f + c; k.equation = s * b + c
+        elif case.get("family") == "cdelay":
+            # wave 4: the flow is a delay of the very constant the step settings change
+            import BPTK_Py.sddsl.functions as sd
+            c.equation = c0; f.equation = sd.delay(m, c, 2 * dt) * a; s.initial_value = s0; s.equation = f; k.equation = s * b + c
         elif case.get("family") == "points":
             # the converter reads a graphical function; step settings replace its points table (flat table: lookup = its level)
             import BPTK_Py.sddsl.functions as sd
@@ -253,8 +260,12 @@ def reference_rows(case, n):
             rows.append("i%d:" % j + ",".join(fbits(vals[e]) for e in case["eqs"]))
             s = s + dt * f
             continue
-        f = max(0, (cs[max(0, j - 2)] if case.get("family") == "lookback" else c) * a)
+        f = max(0, (cs[max(0, j - 2)] if case.get("family") in ("lookback", "cdelay") else c) * a)
         vals = {0: c, 1: f, 2: s, 3: s * b + c}
+        if case.get("family") == "direct":
+            rows.append("i%d:" % j + ",".join(fbits(vals[e]) for e in case["eqs"]))
+            s = s + dt * (f + c)
+            continue
         rows.append("i%d:" % j + ",".join(fbits(vals[e]) for e in case["eqs"]))
         s = s + dt * f
     return rows, len(ss)
@@ -554,21 +565,40 @@ def probe_finalises_lookback():
         for b in created: b.destroy()
 
 
+def probe_keeps_memo():
+    """change_equation with a step keeps the constant's earlier values: the stock names the constant directly (reads c(t-dt)),
+    c -> 10 with the fourth step, only the stock requested"""
+    created = []
+    try:
+        bp = make_factory(dict(probe_case(1.0, 8, [2], []), family="direct"), created)()
+        bp.begin_session(scenarios=[SC], scenario_managers=[SM], equations=["s"], dt=1.0)
+        vals = []
+        for j in range(6):
+            r = bp.run_step(settings=settings_of(10.0)) if j == 3 else bp.run_step()
+            vals.append(list(r[SM][SC]["s"].values())[0])
+        return vals == [0.0, 2.0, 4.0, 6.0, 26.0, 46.0]
+    except Exception:
+        return False
+    finally:
+        for b in created: b.destroy()
+
+
 def probe_all():
     state = probe_finalises()
     return {"dt": probe_session_dt(), "clock": probe_clock(), "final": state and probe_finalises_lookback(), "state": state,
-            "run": probe_run_resets()}
+            "run": probe_run_resets(), "keep": probe_keeps_memo()}
 
 
 def gen_lean(f):
     b = lambda x: "true" if x else "false"
     cfg = (f"def cfg : Cfg := {{ sessionDtFromScenario := {b(f['dt'])}, stepClockNormalised := {b(f['clock'])}, "
-           f"stepFinalisesAll := {b(f['final'])}, stepFinalisesState := {b(f['state'])}, runResetsOnAnySettings := {b(f['run'])} }}\n")
-    if f["dt"] and f["clock"] and f["final"] and f["run"]:
+           f"stepFinalisesAll := {b(f['final'])}, stepFinalisesState := {b(f['state'])}, runResetsOnAnySettings := {b(f['run'])}, changeEquationKeepsMemo := {b(f['keep'])} }}\n")
+    if f["dt"] and f["clock"] and f["final"] and f["run"] and f["keep"]:
         body = "theorem holds : C09_full cfg := C09_full_of_good cfg (by decide)\n#print axioms holds\n"
     else:
         thm = ("C09_witness_session_dt cfg (by decide)" if not f["dt"] else "C09_witness_clock cfg (by decide)" if not f["clock"] else
-               "C09_witness_run_runspecs_only cfg (by decide)" if f["final"] else
+               "C09_witness_run_runspecs_only cfg (by decide)" if (f["final"] and not f["run"]) else
+               "C09_witness_memo_dropped cfg (by decide) (by decide)" if f["final"] else
                "C09_witness_state_only cfg (by decide) (by decide)" if f["state"] else "C09_witness_settings_leak cfg (by decide)")
         body = (f"theorem violated : ¬ C09_full cfg := {thm}\n#print axioms violated\n"
                 "#print axioms partition_invariance\n#print axioms formats_agree\n#print axioms C09_partial_all_requested\n")
@@ -609,10 +639,14 @@ def gen_case(rng, fixed=None):
     case = {"a": rng.choice([1.0, 2.0, 0.5, 1.5, 0.3]), "b": rng.choice([1.0, 3.0, 0.25, 1.1]), "s0": rng.choice([0.0, 1.0, 2.5, 0.7]),
             "c0": rng.choice([1.0, 2.0, 0.75, 0.1]), "start": start, "dt": dt, "stop": round(start + n * dt, 10),
             "eqs": rng.choice(EQSETS), "calls": gen_calls(rng, n)}
-    r = rng.below(8)
+    r = rng.below(10)
     if r < 2:
         case["family"] = "lookback"
-    elif r < 3:
+    elif r < 4:
+        case["family"] = "direct"            # the stock names the changed constant directly
+    elif r < 6:
+        case["family"] = "cdelay"            # delay of the changed constant
+    elif r < 7:
         case["family"] = "points"            # step settings carry `points` (a new table for the graphical function k reads)
     if rng.chance(1, 5):
         case["multi"] = True                 # additionally: the same script in a two-scenario session
@@ -629,6 +663,10 @@ def fixed_cases():
             out.append(dict(probe_case(dt, 6, [2, 1, 0], list(calls), start=1.0), a=2.0, b=3.0, s0=1.0))
     for eqs in ([2], [1, 2], [3]):                    # look-back family: c changes with the fourth and sixth step
         out.append(dict(probe_case(1.0, 8, eqs, [("steps", 3, None), ("step", 5.0), ("step", None), ("step", 0.5), ("stream", None)]), family="lookback"))
+    for fam in ("direct", "cdelay"):                  # wave 4: settings for the constant arrive at step k > 1; its earlier values must stay
+        for eqs in ([2], [1, 2], [3], [0, 1, 2, 3]):
+            out.append(dict(probe_case(1.0, 8, eqs, [("steps", 3, None), ("step", 5.0), ("step", None), ("step", 0.5), ("stream", None)]), family=fam, a=2.0))
+            out.append(dict(probe_case(0.5, 6, eqs, [("step", None), ("steps", 2, 7.25), ("stream", 0.0)], start=1.0), family=fam, a=1.5, b=3.0))
     for eqs in ([3], [2, 3], [0, 1, 2, 3]):           # points passed with a step; two-scenario sessions; calls after a completed stream
         out.append(dict(probe_case(0.5, 6, eqs, [("steps", 2, None), ("step", 4.0), ("steps", 2, None), ("stream", 0.5)]), family="points", multi=True))
         out.append(dict(probe_case(1.0, 5, eqs, [("step", 2.0), ("stream", None), ("step", 7.0), ("steps", 2, None), ("stream", 3.0)]), multi=True))
@@ -705,7 +743,7 @@ def run_case(case, facts):
     while k < len(raw):
         raw[k] = tok(x); x = x + sdt; k += stride
     eqs = ",".join(map(str, case["eqs"]))
-    req = ["model %s %s %s %s" % tuple(fbits(case[k]) for k in ("a", "b", "s0", "dt")) + (" 1" if case.get("family") == "lookback" else " 0"),
+    req = ["model %s %s %s %s" % tuple(fbits(case[k]) for k in ("a", "b", "s0", "dt")) + " %d" % {"lookback": 1, "direct": 2, "cdelay": 3}.get(case.get("family"), 0),
            "spec %d %d %s" % (n, stride, ",".join(raw)),
            "begin %s %d %s" % (fbits(case["c0"]), lazy_flag(case["eqs"]), eqs)]
     exp = ["ok", "ok", "ok"]
@@ -795,7 +833,7 @@ def run(chk):
                        "the look-back `delay(g, 2*dt)` is rendered in C08's expression language as two one-step delays (auxiliary g1 = delay(g, dt)); values coincide"]
     rng = chk.rng.fork("c09")
     cases = fixed_cases() + [gen_case(rng) for _ in range(220 if chk.quick else 3000)]
-    req, exp, owner = ["cfg %d %d %d %d %d" % (facts["dt"], facts["clock"], facts["final"], facts["state"], facts["run"])], ["ok"], [None]
+    req, exp, owner = ["cfg %d %d %d %d %d %d" % (facts["dt"], facts["clock"], facts["final"], facts["state"], facts["run"], facts["keep"])], ["ok"], [None]
     found, skipped, dist = {}, 0, {"dt": {}, "calls": {}, "eqsets": {}}
     for idx, case in enumerate(cases):
         try:
@@ -884,6 +922,10 @@ def run(chk):
     if not facts["run"] and "run-after-run-stale" not in seq_found:
         chk.add_finding("run-after-run-stale", "probe: a /run whose settings carry only run specs is answered from the memo of the earlier /run",
                         {"sequence": FIXED_SEQUENCES[0], "key": "run-after-run-stale"})
+    if not facts["keep"] and "settings-leak-one-step-back" not in found:
+        chk.add_finding("settings-leak-one-step-back", "probe: a setting for a constant passed with a step rewrites the constant's EARLIER values (its memo is emptied): "
+                        "stock naming the constant directly, c -> 10 with the fourth step",
+                        {"case": dict(probe_case(1.0, 8, [2], [("steps", 3, None), ("step", 10.0), ("steps", 2, None)]), family="direct"), "key": "settings-leak-one-step-back"})
     for fact, key in (("dt", "session-dt-ignored"), ("clock", "session-clock-drift"), ("final", "settings-leak-one-step-back")):
         if not facts[fact] and key not in found:
             pc = {"dt": probe_case(0.5, 4, [2], [("stream", None)]), "clock": probe_case(0.1, 10, [2], [("stream", None)]),
